@@ -276,6 +276,110 @@ func runToken(c *core.Ctx) []core.Obligation {
 		}
 	}
 
+	// every token has its own kind and its own Delim: the kind field of the flags is stored on every
+	// path, whatever the kind is (a separator has kind Undefined — keeping the previous token's kind
+	// makes Kind() answer Num on the commas of [1,2,3]), and Delim is stored on every path that leads to
+	// a scanner call (a scalar that keeps the previous token's Delim replays that delimiter's
+	// bookkeeping: the '[' before a null is pushed twice)
+	{
+		var kindStore *ssa.Store
+		for _, blk := range fn.Blocks {
+			for _, in := range blk.Instrs {
+				st, ok := in.(*ssa.Store)
+				if !ok {
+					continue
+				}
+				fa, ok := st.Addr.(*ssa.FieldAddr)
+				if !ok || fieldNameOf(fa) != "flags" {
+					continue
+				}
+				if call, ok := st.Val.(*ssa.Call); ok {
+					if f := staticCallee(call.Common()); f != nil && f.Name() == "withKind" {
+						kindStore = st
+					}
+				}
+			}
+		}
+		key := "token:kind-stored-for-every-token"
+		switch {
+		case kindStore == nil:
+			b.addP(props, core.Violation, key, c.FuncPos(fn), "Tokenizer.Next no longer stores the token's kind with flags.withKind: Kind() reports the kind of an earlier token")
+		default:
+			kindArg := kindStore.Val.(*ssa.Call).Common().Args[len(kindStore.Val.(*ssa.Call).Common().Args)-1]
+			cond := ""
+			for _, e := range dominatingEdges(kindStore.Block()) {
+				if dependsOn(e.ifi.Cond, func(x ssa.Value) bool { return x == kindArg }) {
+					cond = c.InstrPos(e.ifi)
+				}
+			}
+			if cond != "" {
+				b.addP(props, core.Violation, key, c.InstrPos(kindStore), "the kind of the token is only stored under a test of the kind itself ("+cond+"): a token without a kind (',' ':' '}' ']') keeps the kind of the token before it, so Kind() reports Num for the commas and the closing bracket of [1,2,3]")
+			} else {
+				b.addP(props, core.Discharged, key, c.InstrPos(kindStore), "flags.withKind(kind) is stored whatever the kind")
+			}
+		}
+		// must-store of Delim before each scanner call
+		stored := map[*ssa.BasicBlock]bool{}
+		hasStore := func(blk *ssa.BasicBlock, before ssa.Instruction) bool {
+			for _, in := range blk.Instrs {
+				if in == before {
+					return false
+				}
+				if st, ok := in.(*ssa.Store); ok {
+					if fa, ok := st.Addr.(*ssa.FieldAddr); ok && fieldNameOf(fa) == "Delim" {
+						return true
+					}
+				}
+			}
+			return false
+		}
+		for _, blk := range fn.Blocks {
+			stored[blk] = true
+		}
+		stored[fn.Blocks[0]] = false
+		inOf := func(blk *ssa.BasicBlock) bool {
+			if blk == fn.Blocks[0] {
+				return false
+			}
+			v := true
+			for _, p := range blk.Preds {
+				if !(stored[p] || hasStore(p, nil)) {
+					v = false
+				}
+			}
+			return v
+		}
+		for changed := true; changed; {
+			changed = false
+			for _, blk := range fn.Blocks {
+				if v := inOf(blk); v != stored[blk] {
+					stored[blk] = v
+					changed = true
+				}
+			}
+		}
+		n, bad := 0, ""
+		for _, ci := range callsIn(fn) {
+			f := staticCallee(ci.Common())
+			if f == nil || !strings.HasPrefix(f.Name(), "parse") {
+				continue
+			}
+			n++
+			if !(stored[ci.Block()] || hasStore(ci.Block(), ci)) {
+				bad = c.InstrPos(ci) + " (" + f.Name() + ")"
+			}
+		}
+		key2 := "token:delim-stored-for-every-scalar"
+		switch {
+		case n == 0:
+			b.addP(props, core.Undecided, key2, c.FuncPos(fn), "Tokenizer.Next calls no parse* scanner")
+		case bad != "":
+			b.addP(props, core.Violation, key2, bad, "a scalar is scanned at "+bad+" on a path where t.Delim has not been stored since Next was entered: the token keeps the previous token's delimiter, and the delimiter half of Next replays its bookkeeping — in [null,7] the '[' is pushed twice and 7 is reported at depth 2")
+		default:
+			b.addP(props, core.Discharged, key2, c.FuncPos(fn), fmt.Sprintf("t.Delim is stored on every path to each of the %d scanner calls", n))
+		}
+	}
+
 	// a pooled stack is empty when acquired
 	if fa := c.Lookup("json.acquireStack"); fa != nil {
 		var get ssa.Value
